@@ -338,13 +338,56 @@ def replay_monitor(run: Any) -> list[monitors.Finding]:
             # legitimately skipped only if an ancestor failure made it pointless? no: the rule is unconditional
             out.append((f"C10 {sc} replay skips unacceptable test", f"{monitors._short(b)} had the previous result {p} and was not executed again", {}))
         if acceptable and stateful:
-            # executed again exactly if a produced state was found missing at its first scan
-            checks = [e for e in run.trace if e["kind"] == "door" and e["action"] == "check" and e.get("node_bridged") == b]
-            missing_state = bool(checks) and not all(checks[0]["answers"])
-            if runs and not missing_state and checks:
-                out.append((f"C10 {sc} replay reruns available setup", f"{monitors._short(b)} had the previous result {p} and all its states, but was executed again", {}))
-            if not runs and missing_state:
-                out.append((f"C10 {sc} replay skips missing setup", f"{monitors._short(b)} had the previous result {p} but its state was missing and it was not executed", {}))
+            # executed again exactly if a state it produces is missing (judged on the store, not on the code's own scan)
+            wid = node.params["nets"]
+            keys = [k for k in trav.produced_states(node) if k[1] not in trav.ROOT_STATES]
+            if runs:
+                first = runs[0]
+                checks = [e for e in run.trace if e["kind"] == "door" and e["action"] == "check" and e.get("node_bridged") == b and e["idx"] < first["idx"]]
+                if checks and all(checks[0]["answers"]):
+                    out.append((f"C10 {sc} replay reruns available setup", f"{monitors._short(b)} had the previous result {p} and all its states, but was executed again", {}))
+            else:
+                absent = [k for k in keys if not run.present_for(wid, k, ["shared"])]
+                if absent:
+                    out.append((f"C10 {sc} replay skips missing setup", f"{monitors._short(b)} had the previous result {p}, its state {absent[0][1]} is missing, and it was not executed again", {}))
+    return out
+
+
+def retry_count_monitor(run: Any) -> list[monitors.Finding]:
+    """Single worker: every test is executed again exactly while tries remain and the rerun/stop sets allow it."""
+    out: list[monitors.Finding] = []
+    sc = run.scenario
+    if run.crash is not None:
+        return [(f"C10 {sc.name} crash", f"traversal failed: {run.crash}", {})]
+    m = int(sc.params.get("max_tries", 1))
+    rerun = (sc.params.get("rerun_status") or " ".join(ALL)).split()
+    stop = (sc.params.get("stop_status") or "").split()
+    groups: dict[str, list[dict[str, Any]]] = {}
+    for ev in run.trace:
+        if ev["kind"] == "start":
+            groups.setdefault(monitors.creation_group(ev), []).append(ev)
+    for name, evs in groups.items():
+        # tries of an object creation: every install run and every failed configuration step
+        if name.startswith("create:"):
+            tries = [e for e in evs if not e["prefix"].startswith("0") or e.get("status") in ("FAIL", "ERROR", "NONE")]
+        else:
+            tries = evs
+        statuses = [("error" if e.get("status") == "NONE" else str(e.get("status")).lower()) for e in tries]
+        want = 0
+        for k in range(0, m + 1):
+            seen = statuses[:k]
+            if k == 0:
+                want = 1
+                continue
+            if k >= len(statuses) + 1:
+                break
+            go_on = m >= 2 and k < m and set(seen) <= set(rerun) and not (set(seen) & set(stop))
+            want = k + 1 if go_on else k
+            if not go_on:
+                break
+        want = min(want, max(m, 1))
+        if len(statuses) != want:
+            out.append((f"C10 {sc.name} number of tries", f"{monitors._short(evs[0]['bridged'])} was tried {len(statuses)} times with outcomes {statuses}; max_tries={m}, rerun={'all' if len(rerun) == 8 else rerun}, stop={stop or 'none'} give {want}", {}))
     return out
 
 
@@ -373,6 +416,8 @@ def plans(tier: str) -> list[dict[str, Any]]:
         P("ids: G1 2 workers max_tries=3", trav.menu("G1", params={"max_tries": "3"}, label="G1-tries3"), [ids_monitor], K=1, statuses=["PASS", "FAIL", "NONE"], max_nonpass=2),
         P("own results: G1 2 workers, result records arriving late", trav.menu("G1"), [ids_monitor], K=1, statuses=["PASS", "LATE:PASS", "LATE:FAIL"], max_nonpass=2, pool_fixed={"install": ["shared"]}),
         P("ids: G2 2 workers max_tries=2", trav.menu("G2", params={"max_tries": "2", "stop_status": "pass"}, label="G2-tries2-stop"), [ids_monitor], K=1, statuses=["PASS", "FAIL"], max_nonpass=2),
+        P("tries: G1 1 worker max_tries=3, any two failures", trav.menu("G1x1", params={"max_tries": "3"}, label="G1x1-tries3"), [retry_count_monitor], K=1, statuses=["PASS", "FAIL"], max_nonpass=2),
+        P("tries: G1 1 worker max_tries=3 stop on pass", trav.menu("G1x1", params={"max_tries": "3", "stop_status": "pass"}, label="G1x1-tries3-stop"), [retry_count_monitor], K=1, statuses=["PASS", "FAIL"], max_nonpass=2),
         P("replay: G1 1 worker, previous results symbolic", trav.menu("G1x1", lazy=False, params={"replay": "job1"}, label="G1-replay"), [replay_monitor], K=1, statuses=["PASS"], pool_bits="shared", pool_states=["customize", "on_customize"], pool_fixed={"install": ["shared"]}, setup=_setup_previous),
     ]
     if tier == "thorough":
